@@ -81,8 +81,17 @@ def gen_cases(rng, n, hist_frac=0.5, maxlen=6, utf8_only=True):
     return out
 
 
+def cap_cases():
+    """deterministic probes around the 16384-byte input cap of ada::idna (always part of the corpus, so that the known
+    finding about the cap is reported on every run and a change of the cap's behaviour is noticed)"""
+    return [(b"http://%61" + b"a" * 16380 + b".com/", None, [], None),
+            ("https://é".encode() + b"a" * 16382 + b"/", None, [], None),
+            (b"http://A" + b"a" * 16390 + b".COM/p", None, [], None),
+            (b"ws://xn--" + b"a" * 16390 + b"/", None, [], None)]
+
+
 def wpt_cases():
-    out = []
+    out = cap_cases()
     for name in ["urltestdata.json", "ada_extra_urltestdata.json", "ada_long_urltestdata.json"]:
         for inp, base, e in wpt.load_urltestdata(name):
             out.append((inp, base, [], None))
